@@ -10,6 +10,8 @@ import (
 	"bytes"
 	"fmt"
 	"reflect"
+
+	"verifharness/treecmp"
 )
 
 type visitKey struct {
@@ -83,7 +85,7 @@ func (d *differ) walk(a, b reflect.Value, path string) {
 		}
 		for i := 0; i < t.NumField(); i++ {
 			name := t.Field(i).Name
-			if name == "StartPos" {
+			if name == "StartPos" || treecmp.UnknownPrivateField(t, i) {
 				continue
 			}
 			if skipAvcExt && (name == "ChromaFormat" || name == "BitDepthLumaMinus1" || name == "BitDepthChromaMinus1" || name == "NumSPSExt") {
